@@ -40,18 +40,18 @@ open OpenFGAVerif.BoolSys OpenFGAVerif.ListUsers
 /-! ## The property, wildcard-free stage -/
 
 /-- no user is returned twice, whatever the schedule -/
-theorem lu_nodup {N K : Type} [DecidableEq K] (sys : LSys N K) (limit : Nat) (root : N) (a : Answer K)
+theorem lu_nodup {N K : Type} [DecidableEq N] [DecidableEq K] (sys : LSys N K) (limit : Nat) (root : N) (a : Answer K)
     (h : ListUsersRel sys limit root a) : a.users.Nodup :=
   ListUsers.lu_nodup sys limit root a h
 
 /-- every returned user was written by a leaf of the expansion -/
-theorem lu_filter_partial {N K : Type} [DecidableEq K] (sys : LSys N K) (limit : Nat) (P : K → Prop)
+theorem lu_filter_partial {N K : Type} [DecidableEq N] [DecidableEq K] (sys : LSys N K) (limit : Nat) (P : K → Prop)
     (hsys : ∀ n, SendsOnly P (sys.rule n)) (root : N) (a : Answer K) (h : ListUsersRel sys limit root a) :
     ∀ k ∈ a.users, P k :=
   ListUsers.lu_filter sys limit P hsys root a h
 
 /-- **soundness**, wildcard-free stage, every schedule: a returned subject definitely holds the relation -/
-theorem lu_sound_partial {N K : Type} [DecidableEq K] (sys : LSys N K) (limit : Nat) (u : K) (cw : Bool)
+theorem lu_sound_partial {N K : Type} [DecidableEq N] [DecidableEq K] (sys : LSys N K) (limit : Nat) (u : K) (cw : Bool)
     (I : Interp N) (hst : Stage1 sys) (hc : Coherent (specSys sys u cw) I) (root : N) (a : Answer K)
     (h : ListUsersRel sys limit root a) (he : a.errs = []) (hn : a.notes = []) (hu : u ∈ a.users) :
     D (specSys sys u cw) I [] root :=
@@ -59,14 +59,14 @@ theorem lu_sound_partial {N K : Type} [DecidableEq K] (sys : LSys N K) (limit : 
 
 /-- **completeness**, wildcard-free stage, every schedule: a subject that possibly holds the relation
 (in particular one that holds it) is returned -/
-theorem lu_complete_partial {N K : Type} [DecidableEq K] (sys : LSys N K) (limit : Nat) (u : K) (cw : Bool)
+theorem lu_complete_partial {N K : Type} [DecidableEq N] [DecidableEq K] (sys : LSys N K) (limit : Nat) (u : K) (cw : Bool)
     (I : Interp N) (hst : Stage1 sys) (hc : Coherent (specSys sys u cw) I) (root : N) (a : Answer K)
     (h : ListUsersRel sys limit root a) (he : a.errs = []) (hn : a.notes = [])
     (hp : P (specSys sys u cw) I [] root) : u ∈ a.users :=
   (lu_exact1 sys limit u cw I hst hc root a h he hn).2 hp
 
 /-- both, without the coherence hypothesis, for systems without negation through recursion -/
-theorem lu_exact_stratified {N K : Type} [DecidableEq K] (sys : LSys N K) (limit : Nat) (u : K) (cw : Bool)
+theorem lu_exact_stratified {N K : Type} [DecidableEq N] [DecidableEq K] (sys : LSys N K) (limit : Nat) (u : K) (cw : Bool)
     (rk : N → Nat) (hst : Stage1 sys) (hs : Stratified (specSys sys u cw) rk) (root : N) (a : Answer K)
     (h : ListUsersRel sys limit root a) (he : a.errs = []) (hn : a.notes = []) :
     (u ∈ a.users → D (specSys sys u cw) (stratInterp (specSys sys u cw) rk) [] root) ∧
@@ -84,21 +84,21 @@ theorem lu_exact_exec {N K : Type} [DecidableEq N] [DecidableEq K] (sys : LSys N
 /-! ## The property with wildcards -/
 
 /-- **soundness with wildcards**, every schedule -/
-theorem lu_sound_wild_partial {N K : Type} [DecidableEq K] (sys : LSys N K) (limit : Nat) (u : K)
+theorem lu_sound_wild_partial {N K : Type} [DecidableEq N] [DecidableEq K] (sys : LSys N K) (limit : Nat) (u : K)
     (I : Interp N) (hst : Stage2 sys) (hc : Coherent (specSys sys u true) I) (root : N) (a : Answer K)
     (h : ListUsersRel sys limit root a) (he : a.errs = []) (hn : a.notes = []) (hu : u ∈ a.users) :
     D (specSys sys u true) I [] root :=
   (lu_exact2 sys limit u I hst hc root a h he hn).1 hu
 
 /-- **completeness with wildcards**, every schedule: returned explicitly or covered by the returned wildcard -/
-theorem lu_complete_wild_partial {N K : Type} [DecidableEq K] (sys : LSys N K) (limit : Nat) (u : K)
+theorem lu_complete_wild_partial {N K : Type} [DecidableEq N] [DecidableEq K] (sys : LSys N K) (limit : Nat) (u : K)
     (I : Interp N) (hst : Stage2 sys) (hc : Coherent (specSys sys u true) I) (root : N) (a : Answer K)
     (h : ListUsersRel sys limit root a) (he : a.errs = []) (hn : a.notes = [])
     (hp : P (specSys sys u true) I [] root) : u ∈ a.users ∨ sys.wk ∈ a.users :=
   (lu_exact2 sys limit u I hst hc root a h he hn).2 hp
 
 /-- both, unconditionally for stratified systems -/
-theorem lu_exact_wild_stratified {N K : Type} [DecidableEq K] (sys : LSys N K) (limit : Nat) (u : K)
+theorem lu_exact_wild_stratified {N K : Type} [DecidableEq N] [DecidableEq K] (sys : LSys N K) (limit : Nat) (u : K)
     (rk : N → Nat) (hst : Stage2 sys) (hs : Stratified (specSys sys u true) rk) (root : N) (a : Answer K)
     (h : ListUsersRel sys limit root a) (he : a.errs = []) (hn : a.notes = []) :
     (u ∈ a.users → D (specSys sys u true) (stratInterp (specSys sys u true) rk) [] root) ∧
